@@ -8,6 +8,7 @@ the source by the translator (`Generated/TimeArrayMech.lean`): does `__getitem__
 import Midgard.Model.TimeArrayHist
 import Midgard.Generated.TimeArrayMech
 import Mathlib.Tactic.SplitIfs
+import Mathlib.Tactic.Common
 
 set_option linter.unusedVariables false
 
@@ -247,6 +248,77 @@ theorem view_copy_same {h : Heap} (hh : HInv h) (t : Nat) (a : Arr) (ha : h[t]? 
   obtain ⟨hp, _, _⟩ := good_of_getElem? hh ha
   simp [step, ha, finalize, hp, Arr.obs]
 
+/-- `insert(a, pos, b)` splices the epochs of `b` into those of `a` at `pos` — the same splice in values,
+`jd1` and `jd2` -/
+theorem insert_is_splice {h : Heap} (hh : HInv h) (ta tb : Nat) (pos : Int) (a b : Arr) (ha : h[ta]? = some a)
+    (hb : h[tb]? = some b) (hs : a.scalar = false) (l : List Nat) (hl : insertAt pos a.vals b.vals = some l) :
+    (step true h (.insert ta pos tb)).2 = .arr ⟨l, l, l, false⟩ := by
+  obtain ⟨_, hv, hj⟩ := good_of_getElem? hh ha
+  obtain ⟨_, hv', hj'⟩ := good_of_getElem? hh hb
+  have h1 : insertAt pos a.jd1 b.jd1 = some l := by rw [← hv, ← hv']; exact hl
+  have h2 : insertAt pos a.jd2 b.jd2 = some l := by rw [← hj, ← hj']; exact h1
+  simp [step, ha, hb, hs, hl, h1, h2, Arr.obs]
+
+theorem set_self {α} (l : List α) (i : Nat) (x : α) (h : l[i]? = some x) : l.set i x = l := by
+  apply List.ext_getElem?
+  intro j
+  by_cases hij : j = i
+  · subst hij
+    have hlt : j < l.length := by
+      by_contra hc; rw [List.getElem?_eq_none (by omega)] at h; cases h
+    rw [List.getElem?_set_self hlt, h]
+  · rw [List.getElem?_set_ne (Ne.symm hij)]
+
+/-- one integer read on a good heap leaves the heap as it was and returns the single epoch -/
+theorem getIntStep_good {h : Heap} (hh : HInv h) (t : Nat) (a : Arr) (ha : h[t]? = some a) (hs : a.scalar = false)
+    (k : Nat) (hk : k < a.jd1.length) :
+    getIntStep true h t (k : Int) = (h, some { vals := pick a.jd1 [k], jd1 := pick a.jd1 [k], jd2 := pick a.jd2 [k], scalar := true }) := by
+  obtain ⟨hp, _, _⟩ := good_of_getElem? hh ha
+  have hn : normIdx a.jd1.length (k : Int) = some k := by
+    simp [normIdx]; omega
+  have hsame : afterGet true { a with pending := some (pick a.jd1 [k], pick a.jd2 [k]) } = a := by
+    cases a; simp only [afterGet, if_true] at hp ⊢; simp_all
+  unfold getIntStep
+  simp only [ha, hn, hsame, setAt, set_self h t a ha]
+  simp [hs]
+
+/-- iteration yields exactly the epochs in order, each one aligned, and does not disturb the array -/
+theorem iter_is_elements {h : Heap} (hh : HInv h) (t : Nat) (a : Arr) (ha : h[t]? = some a) (hs : a.scalar = false) :
+    (step true h (.iter t)).2 = .many ((List.range a.jd1.length).map
+      (fun k => ⟨pick a.jd1 [k], pick a.jd1 [k], pick a.jd2 [k], true⟩)) := by
+  have key : ∀ (ks : List Nat) (extra : Heap) (acc : List Obs), (∀ k ∈ ks, k < a.jd1.length) → HInv (h ++ extra) →
+      (ks.foldl
+        (fun (acc : Heap × List Obs) (k : Nat) =>
+          match getIntStep true acc.1 t (k : Int) with
+          | (h', some r) => (h' ++ [r], acc.2 ++ [r.obs])
+          | (h', none) => (h', acc.2))
+        (h ++ extra, acc)).2 = acc ++ ks.map (fun k => ⟨pick a.jd1 [k], pick a.jd1 [k], pick a.jd2 [k], true⟩) := by
+    intro ks
+    induction ks with
+    | nil => intro extra acc _ _; simp
+    | cons k ks ih =>
+      intro extra acc hks hinv
+      have ha' : (h ++ extra)[t]? = some a := by
+        have hlt : t < h.length := by
+          by_contra hc; rw [List.getElem?_eq_none (by omega)] at ha; cases ha
+        rw [List.getElem?_append_left hlt]; exact ha
+      have hstep := getIntStep_good hinv t a ha' hs k (hks k List.mem_cons_self)
+      simp only [List.foldl_cons, hstep, List.map_cons]
+      have hgood : Good { vals := pick a.jd1 [k], jd1 := pick a.jd1 [k], jd2 := pick a.jd2 [k], scalar := true } := by
+        obtain ⟨_, _, hj⟩ := good_of_getElem? hinv ha'
+        exact ⟨rfl, rfl, by simp [hj]⟩
+      have := ih (extra ++ [{ vals := pick a.jd1 [k], jd1 := pick a.jd1 [k], jd2 := pick a.jd2 [k], scalar := true }])
+        (acc ++ [Arr.obs { vals := pick a.jd1 [k], jd1 := pick a.jd1 [k], jd2 := pick a.jd2 [k], scalar := true }])
+        (fun k' hk' => hks k' (List.mem_cons_of_mem _ hk'))
+        (by rw [← List.append_assoc]; exact hinv_append hinv hgood)
+      rw [← List.append_assoc] at this
+      rw [this]
+      simp [Arr.obs]
+  have := key (List.range a.jd1.length) [] [] (by intro k hk; exact List.mem_range.mp hk) (by simpa using hh)
+  simp only [List.append_nil, List.nil_append] at this
+  simp only [step, ha, hs, Bool.false_eq_true, if_false]
+  exact congrArg Out.many this
+
 /-! ### The outcome never depends on what was read earlier -/
 
 /-- On good heaps the result of an operation is a function of what the arrays it names look
@@ -400,6 +472,10 @@ end Midgard.Props.C04
 #print axioms Midgard.Props.C04.subset_is_index
 #print axioms Midgard.Props.C04.getInt_is_index
 #print axioms Midgard.Props.C04.view_copy_same
+#print axioms Midgard.Props.C04.insert_is_splice
+#print axioms Midgard.Props.C04.set_self
+#print axioms Midgard.Props.C04.getIntStep_good
+#print axioms Midgard.Props.C04.iter_is_elements
 #print axioms Midgard.Props.C04.history_independent
 #print axioms Midgard.Props.C04.set_rejected
 #print axioms Midgard.Props.C04.hash_eq
